@@ -580,7 +580,7 @@ func (fx *fexec) invoke(x *ssa.Call, st *State) Val {
 	for _, a := range cc.Args {
 		args = append(args, fx.val(a))
 	}
-	it := vc.resolve(cc.Value.Type())
+	it := types.Unalias(vc.resolve(cc.Value.Type()))
 	name := ""
 	if n, ok := it.(*types.Named); ok {
 		name = n.Obj().Pkg().Path() + "." + n.Obj().Name() + "." + cc.Method.Name()
